@@ -69,7 +69,10 @@ def cfg(nrec, h, cap):
     return ['VX_NREC=%d' % nrec, 'VX_H=%d' % h, 'VX_CAP=%d' % cap]
 
 
-def grp(name, harness, props, expect, fns, q, th, scan=None, tier='quick', timeout={'quick': 900, 'thorough': 7200}):
+def grp(name, harness, props, expect, fns, q, th, scan=None, tier=None, timeout={'quick': 900, 'thorough': 7200}):
+    if tier is None:
+        # the in-place strategy contains the classic one; its slower groups run in the thorough tier only
+        tier = 'thorough' if (scan == 1 and name.split('_inplace')[0] in ('scan_c03_keep', 'retire', 'help_scan', 'detach')) else 'quick'
     """q / th: (nrec, h, cap) bounds for the quick / thorough tier"""
     d = dict(name=name, harness=harness, enforce=[], dfcc=False, functions=fns, expect=expect, props=props, timeout=timeout, tier=tier,
              defines=(['VX_SCAN=%d' % scan] if scan is not None else []),
